@@ -89,4 +89,9 @@ CHECKS = {
         quick=dict(groups=[G("stateful", "^TestC11Stateful$", 120, 8)]),
         thorough=dict(groups=[G("stateful", "^TestC11Stateful$", 2500, 16)]),
     ),
+    "C12": dict(
+        title="NNS records and resolution reflect exactly the record operations performed",
+        quick=dict(groups=[G("stateful", "^TestC12Stateful$", 120, 8), G("roundtrip", "^TestC12RoundTrip$", 100, 2)]),
+        thorough=dict(groups=[G("stateful", "^TestC12Stateful$", 2500, 14), G("roundtrip", "^TestC12RoundTrip$", 2000, 2)]),
+    ),
 }
